@@ -729,13 +729,21 @@ def slice_C06(ctx):
     # quantifiers over nullable / zero-width / first-attempt-failing bodies; empty back-references
     bodies = ["a?", "a*", "(?:a|)", "(?:|a)", "^", "$", "(?:^|a)", "(?:a|$)", "()", "(a*)", "(?:a*)*", "(?:a?b?)",
               "(?:b|a*)", "(a|b*)", "\\1", "(?:^^)", "(?:a|bb)", "(?:a|ab)", "(?:ab|c)", "[ab]?", "(?:a*?)"]
-    quants = ["*", "+", "?", "{2}", "{0,3}", "{2,}", "*?", "+?", "??", "{2,3}?", "{1,}?"]
+    quants = ["*", "+", "?", "{2}", "{0,3}", "{2,}", "*?", "+?", "??", "{2,3}?", "{1,}?", "{7}", "{9,}", "{6,8}", "{5000}"]
     for b in bodies:
         for q in quants:
             for pre, post in (("", ""), ("", "c"), ("(x?)", "c"), ("^", "$")):
                 p = pre + (b if not b.startswith("\\1") or pre == "(x?)" else "(?:a)") + q + post
                 for inp in ("", "a", "aab", "cc", "abc", "bbbbbbbb"):
                     tuples.append(("xpath", rng.choice(["", "m"]), p, inp, "-"))
+    # counted repeats whose count exceeds what is left of the input, over terms that are zero-width only
+    # at run time (an anchor alternative tried second, a back-reference to an empty group): the work must
+    # follow the input, not the number in the quantifier
+    for p in ["(?:a|^){7}ab", "(?:a|^){7,}ab", "(?:b|$){6}", "a(?:b|$){9}", "(c?)(?:b|\\1){3}b", "(c?)(?:b|\\1){4,}b", "(b?)(?:\\1){8,}c",
+              "(?:a|^){200000}b", "(?:^|a){4000000000}b", "a(?:b|$){18446744073709551615}", "(?:a|^){2,4000000000}ab", "(a|^){7}b"]:
+        for inp in ("", "a", "ab", "aab", "b", "c", "ab\nab"):
+            for fl in ("", "m"):
+                tuples.append(("xpath", fl, p, inp, "-"))
     cases = mk_cases(tuples, "mrta")
     code, model, dis = run_slice(cases)
     violations, nontrivial = [], set()
@@ -1561,6 +1569,11 @@ def slice_C16(ctx):
     for d, fl, pat, inp, ast in random_stream(ctx, ctx.n(8000, 80000), per_pattern=3, size=(1, 6),
                                               dialects=("xpath", "xpath", "xsd"), extra_inputs=("",)):
         tuples.append((d, fl, pat, inp, "-"))
+    # flag q: the empty literal is the one literal that matches the zero-length string
+    for fl in ("q", "qi", "qm", "qx"):
+        for p in ("", "a", "(", "a*"):
+            for inp in ("", "a", "abc", "a*a"):
+                tuples.append(("xpath", fl, p, inp, "-"))
     cases = mk_cases(tuples, "mrta")
     code, model, dis = run_slice(cases)
     spec = spec_match(cases)
@@ -1572,6 +1585,13 @@ def slice_C16(ctx):
             continue
         same = same_as_model(code, model, c.cid)
         errs = [r.get("R") == "E:MatchesEmptyString", r.get("A") == "E:MatchesEmptyString"]
+        if "q" in c.flags:
+            # a literal matches the zero-length string iff it is empty
+            nullable_q = (c.pattern == "")
+            if errs[0] != nullable_q or errs[1] != nullable_q or (c.input != "" and (r.get("T") == "E:MatchesEmptyString") != nullable_q):
+                violations.append(viol(c, "MatchesEmptyString iff the literal is empty", r,
+                                       "the up-front rejection of a literal (flag q) regex is wrong in one of the three APIs", None, same))
+            continue
         tok_err = r.get("T") == "E:MatchesEmptyString"
         problems = []
         if errs[0] != errs[1]:
@@ -1833,7 +1853,10 @@ def slice_C19(ctx):
     tuples = []
     hand = ["(a)\\1", "(a|b)\\1", "(a*)\\1", "(a)(b)\\2\\1", "(?:(a)|b)\\1", "(a)?\\1", "(a)|\\1b"[:0] or "(a)|b\\1", "(?:(a)|(b))\\2", "(a)\\1*", "(a\\1)"[:0] or "(a)(\\1)",
             "((a)\\2)", "(a+)b\\1", "(a+?)\\1", "(a|ab)\\1", "([ab])\\1", "(.)\\1", "(a)(b)(c)(d)(e)(f)(g)(h)(i)(j)\\10", "(a)(b)(c)(d)(e)(f)(g)(h)(i)(j)\\1" + "0",
-            "(a)\\10", "(a)\\11", "(a)(b)\\12", "(a)\\1{2}", "(?:(a)\\1)+", "(a)(?:\\1|b)", "(a*)b\\1", "(a?)\\1c", "^(a)\\1$", "(a)x\\1", "(A)\\1", "(a)\\1\\1"]
+            "(a)\\10", "(a)\\11", "(a)(b)\\12", "(a)\\1{2}", "(?:(a)\\1)+", "(a)(?:\\1|b)", "(a*)b\\1", "(a?)\\1c", "^(a)\\1$", "(a)x\\1", "(A)\\1", "(a)\\1\\1",
+            # the group is entered more than once before the path that succeeds is found
+            "^(a|ab)+?\\1$", "(a|ab)+?b\\1", "^((a|ab)b?)+?\\2$", "^(a|ab)*?\\1$", "^(?:(a|ab)b?)+?\\1$", "^(a+?b?)+?\\1$",
+            "^(a|ab){1,2}?\\1$", "^(ab|a)+?\\1b?$"]
     for p in hand:
         for fl in ("", "i"):
             for inp in gen.all_strings("ab", 4) + ["aA", "Aa", "abcdefghijj", "abcdefghija0", "a0", "aa0", "a1", "ab12", "aab", "aAa"]:
